@@ -6,6 +6,7 @@ import warnings
 
 from stix2patterns.validator import run_validator
 
+from .. import registry
 from ..custom import _custom_object_builder
 from ..exceptions import (
     InvalidValueError, PropertyPresenceError, STIXDeprecationWarning,
@@ -868,6 +869,13 @@ def CustomObject(type='x-custom-type', properties=None, extension_name=None, is_
             extension = extension.replace('-', '')
             NameExtension.__name__ = 'ExtensionDefinition' + extension
             cls.with_extension = extension_name
-        return _custom_object_builder(cls, type, _properties, '2.1', _DomainObject)
+        try:
+            return _custom_object_builder(cls, type, _properties, '2.1', _DomainObject)
+        except Exception:
+            if extension_name:
+                # don't leave the helper extension behind if the object
+                # itself could not be registered
+                registry.STIX2_OBJ_MAPS['2.1']['extensions'].pop(extension_name, None)
+            raise
 
     return wrapper
